@@ -232,7 +232,85 @@ type apiCase struct {
 	Args  []jval `json:"args"`
 	Alias bool   `json:"alias"` // after the op, mutate a list result and re-dump the operands
 	Iter  bool   `json:"iter"`  // also return list(iter(result))
-	Build string `json:"build"` // construction history of a list first operand: "" (from items), "append", "shrunk"
+	Build string `json:"build"` // construction history of the first operand: "" (from items), list: "append", "shrunk"; tuple/bytes/list/str: "sliced" (a slice of a longer parent), "grown" (built from an iterator)
+	Twice bool   `json:"twice"` // run the operation a second time with another right operand and re-read the first result
+}
+
+// rebuildImmutable returns a value equal to v with another history: "sliced" = the leading slice of a longer parent (which must stay intact),
+// "grown" = built item by item from an iterator.  parent/want are nil when there is no parent to watch.
+func rebuildImmutable(v py.Object, how string) (nv, parent, want py.Object, err error) {
+	var n int
+	var sentinels, mk func() py.Object
+	switch x := v.(type) {
+	case py.Tuple:
+		n = len(x)
+		mk = func() py.Object { return append(append(py.Tuple{}, x...), py.Int(-101), py.Int(-102), py.Int(-103)) }
+		if how == "grown" {
+			nv, err = py.SequenceTuple(py.NewIterator(py.NewListFromItems(append([]py.Object{}, x...))))
+			return nv, nil, nil, err
+		}
+	case py.Bytes:
+		n = len(x)
+		mk = func() py.Object { return py.Bytes(append(append([]byte{}, x...), 0xf1, 0xf2, 0xf3)) }
+		if how == "grown" {
+			return v, nil, nil, nil
+		}
+	case *py.List:
+		n = len(x.Items)
+		mk = func() py.Object {
+			return py.NewListFromItems(append(append([]py.Object{}, x.Items...), py.Int(-101), py.Int(-102), py.Int(-103)))
+		}
+		if how == "grown" {
+			l := py.NewList()
+			err = l.ExtendSequence(py.NewIterator(py.NewListFromItems(append([]py.Object{}, x.Items...))))
+			return l, nil, nil, err
+		}
+	case py.String:
+		n = len([]rune(string(x)))
+		mk = func() py.Object { return x + py.String("\u00e9\u4e16Z") }
+		if how == "grown" {
+			return v, nil, nil, nil
+		}
+	default:
+		return v, nil, nil, nil
+	}
+	_ = sentinels
+	parent, want = mk(), mk()
+	nv, err = py.GetItem(parent, &py.Slice{Start: py.None, Stop: py.Int(n), Step: py.None})
+	if err != nil {
+		// the type cannot be sliced (a missing feature, judged elsewhere): no second history for it
+		return v, nil, nil, nil
+	}
+	return nv, parent, want, nil
+}
+
+// altOperand returns another value of the same kind and length as v (for the second run of an operation)
+func altOperand(v py.Object) py.Object {
+	switch x := v.(type) {
+	case py.Tuple:
+		t := make(py.Tuple, len(x))
+		for i := range t {
+			t[i] = py.Int(-700 - i)
+		}
+		return t
+	case *py.List:
+		l := py.NewListSized(len(x.Items))
+		for i := range l.Items {
+			l.Items[i] = py.Int(-700 - i)
+		}
+		return l
+	case py.Bytes:
+		b := make(py.Bytes, len(x))
+		for i := range b {
+			b[i] = 0xe0 + byte(i%16)
+		}
+		return b
+	case py.String:
+		return py.String(strings.Repeat("\u00fc", len([]rune(string(x)))))
+	case py.Int:
+		return x
+	}
+	return nil
 }
 
 // rebuildList returns a list with the same items as l but another history (its backing array has spare capacity)
@@ -271,6 +349,7 @@ func apiHandler(raw json.RawMessage) map[string]interface{} {
 		return map[string]interface{}{"harness_panic": "bad case: " + err.Error()}
 	}
 	res := map[string]interface{}{}
+	var parent, parentWant py.Object
 	args := make([]py.Object, 0, len(c.Args))
 	for _, a := range c.Args {
 		v, err := decodeVal(a, args)
@@ -289,12 +368,18 @@ func apiHandler(raw json.RawMessage) map[string]interface{} {
 			return map[string]interface{}{"harness_panic": "decode: " + err.Error()}
 		}
 		if c.Build != "" && len(args) == 0 {
-			if l, ok := v.(*py.List); ok {
+			if l, ok := v.(*py.List); ok && (c.Build == "append" || c.Build == "shrunk") {
 				nv, err := rebuildList(l, c.Build)
 				if err != nil {
 					return map[string]interface{}{"harness_panic": "build: " + err.Error()}
 				}
 				v = nv
+			} else if c.Build == "sliced" || c.Build == "grown" {
+				nv, par, want, err := rebuildImmutable(v, c.Build)
+				if err != nil {
+					return map[string]interface{}{"harness_panic": "build: " + err.Error()}
+				}
+				v, parent, parentWant = nv, par, want
 			}
 		}
 		args = append(args, v)
@@ -338,11 +423,26 @@ func apiHandler(raw json.RawMessage) map[string]interface{} {
 				}
 			}
 		}
+		if c.Twice && err == nil && len(args) == 2 {
+			// the same operation again with another right operand of the same kind: the FIRST result must not change
+			// (a result that shares spare capacity of an operand's backing array is overwritten by the second one)
+			if alt := altOperand(args[1]); alt != nil {
+				before := encodeVal(val, 0)
+				if _, err2 := applyOp(c.Op, []py.Object{args[0], alt}); err2 == nil {
+					res["first_before"] = before
+					res["first_again"] = encodeVal(val, 0)
+				}
+			}
+		}
 		after := make([]interface{}, len(args))
 		for i, a := range args {
 			after[i] = encodeVal(a, 0)
 		}
 		res["after"] = after
+		if parent != nil {
+			res["parent_after"] = encodeVal(parent, 0)
+			res["parent_want"] = encodeVal(parentWant, 0)
+		}
 		if c.Alias && err == nil {
 			if l, ok := val.(*py.List); ok {
 				l.Items = append(l.Items, py.String("<<sentinel>>"))
